@@ -359,6 +359,13 @@ func (e *Engine) evCall(c *ast.CallExpr, st *State) []Value {
 				}
 				e.fail(c.Pos(), "rangeWidth(): not inside a range-over-string body")
 			}
+		case "typedNil":
+			// typedNil(x): the interface value x holds a nil pointer (a non-nil interface whose payload is nil)
+			if e.isSpecHelper(id) {
+				v := e.ev(c.Args[0], st)
+				e.declareFun("tnil", []string{"Ifc"}, "Bool")
+				return []Value{{sx("tnil", v.T), types.Typ[types.Bool]}}
+			}
 		case "rangeIndex":
 			if e.isSpecHelper(id) {
 				tv := e.pk.Info.Types[c.Args[0]]
